@@ -165,10 +165,15 @@ class Bundle:
                 f"{type(self.pack_data).__name__}"
             )
         count = 0
+        # All or nothing: verify the pack's checksum and resolve every object
+        # before the first one is stored, so that a damaged bundle leaves the
+        # object store unchanged.
+        self.pack_data.check()
         # PackInflater resolves OFS_DELTA/REF_DELTA entries against the rest
         # of this pack; iterating pack_data directly skips them; see
         # https://github.com/jelmer/dulwich/issues/2312.
-        for git_obj in PackInflater.for_pack_data(self.pack_data):
+        objects = list(PackInflater.for_pack_data(self.pack_data))
+        for git_obj in objects:
             object_store.add_object(git_obj)
             count += 1
 
